@@ -106,7 +106,89 @@ func realSocketModes() []string {
 		"realsocket:tls-first-choice-again",
 		"realsocket:plain-first-choice-again",
 		"realsocket:tls-second-after-first-down",
+		"realsocket:udp-reconnect-after-cut",
+		"realsocket:udp+secret-reconnect-after-cut",
 	}
+}
+
+// executeRealUDP: a real PacketServer (KCP over loopback UDP, with or without a shared secret)
+// and the real upstream.Packet entry; the carrier is cut under the client's session and the
+// next local connection must get a new session through the SAME upstream entry.
+func executeRealUDP(mode string) (kind, detail string) {
+	cred := ""
+	if strings.Contains(mode, "secret") {
+		cred = ":s3cret@"
+	}
+	pc, err := net.ListenPacket("udp", "127.0.0.1:0")
+	if err != nil {
+		return "slow", err.Error()
+	}
+	port := pc.LocalAddr().(*net.UDPAddr).Port
+	pc.Close()
+	fake := &world.FakeChannel{ChName: "x", Keep: true, BufLimit: 65536}
+	var servers server.Servers
+	js := fmt.Sprintf(`[{"address":"udp://%s127.0.0.1:%d"}]`, cred, port)
+	if err := servers.UnmarshalJSON([]byte(js)); err != nil {
+		return "setup", err.Error()
+	}
+	if err := servers[0].Startup(server.Channels{fake}); err != nil {
+		return "slow", "startup: " + err.Error()
+	}
+	defer servers[0].Shutdown()
+	time.Sleep(200 * time.Millisecond)
+	ups := &upstream.Upstreams{}
+	if err := ups.UnmarshalFlag(fmt.Sprintf("udp://%s127.0.0.1:%d", cred, port)); err != nil {
+		return "setup", err.Error()
+	}
+	defer ups.Shutdown()
+	ccfg := &cert.ClientConfig{}
+	connect := func(marker string) error {
+		ch := make(chan error, 1)
+		go func() {
+			st, err := ups.Connect(cfgGetter{ccfg}, "x")
+			if err == nil {
+				_, err = st.Write([]byte(marker))
+			}
+			ch <- err
+		}()
+		select {
+		case err := <-ch:
+			if err != nil {
+				return err
+			}
+		case <-time.After(90 * time.Second):
+			return fmt.Errorf("slow: Connect did not return within 90 s")
+		}
+		deadline := time.Now().Add(20 * time.Second)
+		for time.Now().Before(deadline) {
+			for i := 0; i < fake.NumTargets(); i++ {
+				if string(fake.Target(i).Bytes()) == marker {
+					return nil
+				}
+			}
+			time.Sleep(5 * time.Millisecond)
+		}
+		return fmt.Errorf("slow: marker reached no target within 20 s")
+	}
+	if err := connect("marker-1"); err != nil {
+		return "slow", "first connection: " + err.Error()
+	}
+	for round := 1; round <= 2; round++ {
+		cl, ok := ups.Data[0].(interface{ Close() error })
+		if !ok {
+			return "setup", "upstream entry cannot be closed"
+		}
+		cl.Close() // the carrier goes away under the session
+		time.Sleep(300 * time.Millisecond)
+		if err := connect(fmt.Sprintf("marker-%d", round+1)); err != nil {
+			if strings.HasPrefix(err.Error(), "slow:") {
+				// no new session although the server is up and reachable the whole time
+				return "no-reconnect|real-udp", fmt.Sprintf("%s: after session loss %d the next local connection was not served within bounded time (%v); the first connection through the same upstream entry had worked", mode, round, err)
+			}
+			return "no-reconnect|real-udp", fmt.Sprintf("%s: after session loss %d the next local connection failed: %v", mode, round, err)
+		}
+	}
+	return "", ""
 }
 
 func executeRealSocket(mode string) (kind, detail string) {
@@ -116,6 +198,9 @@ func executeRealSocket(mode string) (kind, detail string) {
 			kind, detail = "panic", fmt.Sprint(p)
 		}
 	}()
+	if strings.Contains(mode, ":udp") {
+		return executeRealUDP(mode)
+	}
 	p := pki.Bubble()
 	firstTLS := !strings.Contains(mode, "plain-first")
 	a, err := newRealSrv("A", firstTLS, p)
